@@ -207,7 +207,7 @@ def decide(prop, tier, seed, mod, obs, results, wall, args, declared):
     import inspect
     from verif.contracts import cutlist
     srcs = [inspect.getsource(mod)]
-    for extra in ('C09x', 'C14b', 'havoc', 'cuts', 'C04', 'C10', 'C11', 'C02', 'C15') if prop in ('C09', 'C14', 'C15', 'C07', 'C06', 'C08', 'C12', 'C05', 'C02') else ():
+    for extra in ('C09x', 'C14b', 'C14c', 'havoc', 'cuts', 'C04', 'C10', 'C11', 'C02', 'C15') if prop in ('C09', 'C14', 'C15', 'C07', 'C06', 'C08', 'C12', 'C05', 'C02') else ():
       try:
         srcs.append(inspect.getsource(importlib.import_module('verif.contracts.%s' % extra))) if extra != prop and ('%s.' % extra) in srcs[0] + ' ' else None
       except Exception:      # noqa: BLE001
